@@ -1551,8 +1551,41 @@ class Engine:
                         v = c if v is None else ite(g, c, v)
                     od.cells[dst.off + rel] = (v, w)
                 return
+        if isinstance(src, GPtr) and not isinstance(dst, GPtr):
+            # one real source, otherwise null (an optional C string such as Error::str): copy from the real one, a null source is an obligation
+            real = [(g, q) for g, q in src.cases if q.obj is not None]
+            if len(real) == 1:
+                for g, q in src.cases:
+                    if q.obj is None:
+                        self.add_obl('null-deref', st, z3.And(g, n != 0), 'memcpy from a null pointer', where)
+                src = real[0][1]
+        if isinstance(src, GPtr) and not isinstance(dst, GPtr) and dst.obj is not None:
+            # several possible sources (the message literals of an Error): an element-wise choice between them, any length
+            real = [(g, q) for g, q in src.cases if q.obj is not None]
+            od = st.mem.o.get(dst.obj)
+            if real and isinstance(od, ArrayObj) and od.kind[0] != 'ptr' and all(isinstance(st.mem.o[q.obj], ArrayObj) and st.mem.o[q.obj].kind == od.kind for g, q in real):
+                for g, q in src.cases:
+                    if q.obj is None:
+                        self.add_obl('null-deref', st, z3.And(g, n != 0), 'memcpy from a null pointer', where)
+                es = od.ebytes
+                ne = z3.UDiv(n, z3.BitVecVal(es, 64)) if es > 1 else n
+                i = z3.FreshConst(z3.BitVecSort(64), 'cpy')
+                doff = bv64(dst.off)
+                val = z3.Select(od.arr, i)
+                for g, q in real:
+                    os_ = st.mem.o[q.obj]
+                    val = z3.If(g, z3.Select(os_.arr, i - doff + bv64(q.off)), val)
+                    self.add_obl('bounds', st, z3.And(g, ne != 0, z3.Or(bv64(q.off) < 0, bv64(q.off) + ne > os_.cap)), 'memcpy load outside capacity of %s' % (q.obj,), where)
+                if od.const:
+                    self.add_obl('const-write', st, n != 0, 'memcpy to read-only object %s' % (dst.obj,), where)
+                self.add_obl('bounds', st, z3.And(ne != 0, z3.Or(doff < 0, doff + ne > od.cap, z3.UGT(ne, z3.BitVecVal(1 << 60, 64)))), 'memcpy store outside capacity of %s' % (dst.obj,), where)
+                arr = z3.Lambda([i], z3.If(z3.And(z3.UGE(i - doff, z3.BitVecVal(0, 64)), z3.ULT(i - doff, ne)), val, z3.Select(od.arr, i)))
+                st.mem.o[dst.obj] = od.with_arr(arr)
+                return
         if isinstance(dst, GPtr) or isinstance(src, GPtr):
-            raise Unsupported('memcpy through guarded pointer')
+            def _d(p_):
+                return [(str(q.obj), type(st.mem.o.get(q.obj)).__name__) for g, q in ptr_cases(p_)]
+            raise Unsupported('memcpy through guarded pointer (to %s from %s)' % (_d(dst)[:4], _d(src)[:4]))
         if dst.obj is None or src.obj is None:
             if z3.is_bv_value(n) and n.as_long() == 0:
                 return
